@@ -52,6 +52,47 @@ example : ∃ (get : Bytes → Option Bytes) (root k : Bytes) (pt : PTree), Unfo
     by decide⟩
   exact .ext [1] (encode r) 1 1 [97] [9, 9] _ (by simp) (by decide) (.missing _ (by simp))
 
+/-- **Which error `iterate` returns.**  `m` is what a missing node yields (`ErrMissingNodes` under HasMissingNodes' handler,
+    `ErrNodeNotFound` under a handler that ignores nil nodes).  Over the partial tree the result is
+    * nil            iff no node is missing;
+    * `m`            iff the missing node is the root or is reached from the root through extensions only
+                     (`SpineMissing`: an extension hands its child's error up UNCHANGED);
+    * `ErrIteratingChildNodes` iff something is missing and the first non-extension node from the root is a branch
+                     (the branch loop counts the failing child and goes on).
+    No other value is ever produced, so the identity `switch`es on these three sentinels (branch loop of `iterate`, result
+    of HasMissingNodes) never fall into their `default:` arm. -/
+theorem C17_iter_error (m : IterErr) (hm : m ≠ .none) (hm2 : m ≠ .iterChild) (pt : PTree) :
+    (iterErr m pt = .none ↔ ¬ ∃ k, Occurs k pt) ∧
+    (iterErr m pt = m ↔ SpineMissing pt) ∧
+    (iterErr m pt = .iterChild ↔ ((∃ k, Occurs k pt) ∧ ¬ SpineMissing pt)) := by
+  have h1 := iterErr_ne_none_iff m hm pt
+  have h2 := iterErr_spine m hm hm2 pt
+  have h3 := iterErr_values m pt
+  refine ⟨?_, h2, ?_⟩
+  · constructor
+    · intro h hex; exact (h1.mpr hex) h
+    · intro h; exact Classical.byContradiction fun hne => h (h1.mp hne)
+  · constructor
+    · intro h
+      refine ⟨h1.mp (by rw [h]; decide), fun hs => ?_⟩
+      rw [h2.mpr hs] at h; exact hm2 h
+    · rintro ⟨hex, hns⟩
+      rcases h3 with h | h | h
+      · exact absurd h (h1.mpr hex)
+      · exact absurd (h2.mp h) hns
+      · exact h
+
+/-- the two handlers in use -/
+theorem C17_iter_error_hasMissing (pt : PTree) :
+    (iterErr .missingNodes pt = .missingNodes ↔ SpineMissing pt) ∧
+    (iterErr .nodeNotFound pt = .nodeNotFound ↔ SpineMissing pt) :=
+  ⟨(C17_iter_error .missingNodes (by decide) (by decide) pt).2.1, (C17_iter_error .nodeNotFound (by decide) (by decide) pt).2.1⟩
+
+/-- non-vacuity: the same missing node below an extension / below a branch gives the two different errors -/
+example : iterErr .nodeNotFound (.ext [97] (.missing [7])) = .nodeNotFound ∧
+    iterErr .nodeNotFound (.full (fun i => if i = 0 then .ext [97] (.missing [7]) else .empty) none) = .iterChild := by
+  decide
+
 /-- a lookup whose walk crosses a missing node fails with "node not found": never a value, never "not present" -/
 theorem C17_lookup (pt : PTree) (q : Bytes) (h : Crosses pt q) : lookupP pt q = .nodeNotFound := lookupP_crosses pt q h
 
